@@ -107,7 +107,13 @@ def check(case):
                     (not len(s["pos"]) or not len(s["neg"])):
                 derived = "none"  # bootstrap samples need both classes
             else:
+                src_obj = obj
                 obj = _derive(obj, case)
+                if derived in ("proportion", "replacement", "single_pass") and s["mode"] != "uint":
+                    # the source keeps answering for its own scores after a sample was drawn from it
+                    for m in METRICS:
+                        _check_metric(src_obj, m, s["pos"], s["neg"], s["ep"], s["en"], rs, sc, ec,
+                                      labels, case.get("tlayout", "1d"), case.get("target_dtype"))
         if derived == "none":
             pos, neg, ep, en = s["pos"], s["neg"], s["ep"], s["en"]
         else:
